@@ -42,6 +42,7 @@ type Axiom struct {
 	E    *Expr // quantified; instantiated on its triggers
 	Pkg  string
 	Src  string
+	Proved bool // declared with "lemma": proved by the engine, not assumed
 }
 
 type Contract struct {
@@ -73,7 +74,7 @@ type ContractSet struct {
 	Order   []string
 }
 
-var kwRe = regexp.MustCompile(`^(func|trusted|spec|opaque|declare|axiom|props|requires|ensures|assigns|loop|inline|light|assert|pure|stable|ghost|maypanic|note)\b`)
+var kwRe = regexp.MustCompile(`^(func|trusted|spec|opaque|declare|axiom|lemma|props|requires|ensures|assigns|loop|inline|light|assert|pure|stable|ghost|maypanic|note)\b`)
 var nameRe = regexp.MustCompile(`^\[([A-Za-z0-9_\-:#.]+)\]\s*`)
 
 func newContractSet() *ContractSet {
@@ -274,16 +275,18 @@ func (cs *ContractSet) readContractFile(path, pkgPath string) error {
 			}
 			cs.Specs[sf.Name] = sf
 			cur = nil
-		case "axiom":
+		case "axiom", "lemma":
+			// "lemma" is used like an axiom but is itself proved (with every spec function
+			// revealed) in each run that can use it.
 			i := strings.Index(rest, ":")
 			if i < 0 {
-				return fail("axiom needs 'name: expr'")
+				return fail("%s needs 'name: expr'", word)
 			}
 			e, err := parseExpr(strings.TrimSpace(rest[i+1:]))
 			if err != nil {
 				return fail("%v", err)
 			}
-			cs.Axioms = append(cs.Axioms, &Axiom{Name: strings.TrimSpace(rest[:i]), E: e, Pkg: pkgPath, Src: rest[i+1:]})
+			cs.Axioms = append(cs.Axioms, &Axiom{Name: strings.TrimSpace(rest[:i]), E: e, Pkg: pkgPath, Src: rest[i+1:], Proved: word == "lemma"})
 			cur = nil
 		case "stable":
 			for _, f := range strings.Fields(strings.ReplaceAll(rest, ",", " ")) {
